@@ -75,6 +75,14 @@ def logp_goals(cases, results, per_case=4, rng=None):
         pick = goodp if len(goodp) <= per_case else (rng.sample(goodp, per_case) if rng else goodp[:per_case])
         lf = lat_fun(r["latents"], c["suffix"])
         for (i, j) in pick:
+            ov = float.fromhex(r["logp"][i][j])
+            if ov != ov or ov in (float("inf"), float("-inf")):
+                # the Cash statistic -(m - d ln m) is only defined for a positive model: a prior draw whose model + sky is <= 0 at a
+                # pixel legitimately evaluates to NaN / -inf there; any other non-finite per-pixel term is reported as a failing goal
+                if c["loss"] == "cash_loss" and float.fromhex(inp["mod"][i][j]) <= 0:
+                    continue
+                goals.append((ci, (i, j), "Goal False. (* non-finite per-pixel log-probability %r of %s at a used pixel *)\nProof. exact I. Qed." % (ov, c["loss"])))
+                continue
             obs = Fraction(float.fromhex(r["logp"][i][j]))
             tol = Fraction(1, 10**4) + abs(obs) / 10**5
             goals.append((ci, (i, j),
